@@ -211,10 +211,61 @@ proof fn lemma_ids_mono(t: Type, n: int, m: int)
 spec fn ids_closed(ts: Seq<TypeNode>) -> bool {
     forall|i: int| 0 <= i < ts.len() ==> ids_in_range((#[trigger] ts[i]).ty, ts.len() as int)
 }
-spec fn sizes_ok(ts: Seq<TypeNode>) -> bool {
-    // the sum of the sizes of two different roots never exceeds the number of nodes; stated
-    // directly as what `union` needs (machine arithmetic is not treated as mathematical)
-    forall|i: int, j: int| 0 <= i < ts.len() && 0 <= j < ts.len() ==> (#[trigger] ts[i]).size + (#[trigger] ts[j]).size <= usize::MAX
+/// sum of the `size` counters of the roots among the first n nodes
+spec fn root_size_sum(ts: Seq<TypeNode>, n: int) -> int decreases n {
+    if n <= 0 { 0 } else { root_size_sum(ts, n - 1) + (if ts[n - 1].parent is None { ts[n - 1].size as int } else { 0int }) }
+}
+/// the class-size counters of all roots add up to the number of nodes (every node is counted in
+/// exactly one class) - this is what makes `size += size` in `union` free of overflow
+spec fn sizes_inv(ts: Seq<TypeNode>) -> bool { root_size_sum(ts, ts.len() as int) == ts.len() }
+
+proof fn lemma_sum_nonneg(ts: Seq<TypeNode>, n: int)
+    requires 0 <= n <= ts.len(),
+    ensures root_size_sum(ts, n) >= 0,
+    decreases n
+{
+    if n > 0 { lemma_sum_nonneg(ts, n - 1); }
+}
+/// two different roots together are not larger than the sum
+proof fn lemma_two_roots_le_sum(ts: Seq<TypeNode>, n: int, i: int, j: int)
+    requires 0 <= i < n <= ts.len(), 0 <= j < n, i != j, ts[i].parent is None, ts[j].parent is None,
+    ensures ts[i].size + ts[j].size <= root_size_sum(ts, n),
+    decreases n
+{
+    if n - 1 == i {
+        lemma_one_root_le_sum(ts, n - 1, j);
+    } else if n - 1 == j {
+        lemma_one_root_le_sum(ts, n - 1, i);
+    } else {
+        lemma_two_roots_le_sum(ts, n - 1, i, j);
+    }
+}
+proof fn lemma_one_root_le_sum(ts: Seq<TypeNode>, n: int, i: int)
+    requires 0 <= i < n <= ts.len(), ts[i].parent is None,
+    ensures ts[i].size <= root_size_sum(ts, n),
+    decreases n
+{
+    if n - 1 == i { lemma_sum_nonneg(ts, n - 1); } else { lemma_one_root_le_sum(ts, n - 1, i); }
+}
+/// same roots with the same sizes => same sum
+proof fn lemma_sum_same(a: Seq<TypeNode>, b: Seq<TypeNode>, n: int)
+    requires 0 <= n <= a.len(), a.len() == b.len(),
+        forall|i: int| 0 <= i < n ==> ((#[trigger] b[i]).parent is None) == (a[i].parent is None) && b[i].size == a[i].size,
+    ensures root_size_sum(b, n) == root_size_sum(a, n),
+    decreases n
+{
+    if n > 0 { lemma_sum_same(a, b, n - 1); }
+}
+/// the sum after `union`'s two writes: l stops being a root, w's size grows by l's size
+proof fn lemma_sum_link(a: Seq<TypeNode>, b: Seq<TypeNode>, n: int, w: int, l: int)
+    requires 0 <= n <= a.len(), a.len() == b.len(), 0 <= w < a.len(), 0 <= l < a.len(), w != l,
+        a[w].parent is None, a[l].parent is None, b[w].parent is None, b[l].parent is Some,
+        b[w].size == a[w].size + a[l].size,
+        forall|i: int| 0 <= i < a.len() && i != w && i != l ==> ((#[trigger] b[i]).parent is None) == (a[i].parent is None) && b[i].size == a[i].size,
+    ensures root_size_sum(b, n) == root_size_sum(a, n) + (if w < n { a[l].size as int } else { 0int }) - (if l < n { a[l].size as int } else { 0int }),
+    decreases n
+{
+    if n > 0 { lemma_sum_link(a, b, n - 1, w, l); }
 }
 
 /// what `push_type` does to the graph (opaque for callers: the quantified frame facts are only
@@ -271,11 +322,12 @@ proof fn lemma_unchanged(a: Seq<TypeNode>, b: Seq<TypeNode>)
         forall|i: int| 0 <= i < a.len() ==> rep0(b, i) == rep0(a, i),
         forall|i: int| 0 <= i < a.len() ==> (#[trigger] b[i]).ty == a[i].ty && b[i].size == a[i].size && b[i].constraints == a[i].constraints,
     ensures
-        same_graph(a, b), tview(b) == tview(a), ids_closed(a) ==> ids_closed(b),
+        same_graph(a, b), tview(b) == tview(a), ids_closed(a) ==> ids_closed(b), sizes_inv(a) ==> sizes_inv(b),
         forall|o: Seq<TypeNode>| #[trigger] same_graph(o, a) ==> same_graph(o, b),
 {
     assert(same_graph(a, b));
     lemma_same_graph(a, b);
+    lemma_same_roots(a, b);
     assert forall|o: Seq<TypeNode>| #[trigger] same_graph(o, a) implies same_graph(o, b) by {
         lemma_same_graph_trans(o, a, b);
     }
@@ -707,14 +759,27 @@ spec fn head_clash(ta: Type, tb: Type) -> bool {
     }
 }
 
-/// assumption A-size: the class-size counters of two different roots never sum to more than
-/// usize::MAX (they are bounded by the number of nodes; machine arithmetic is NOT treated as
-/// mathematical - this is the one place where the bound is assumed instead of proved)
-#[verifier::external_body]
-proof fn axiom_sizes_fit(ts: Seq<TypeNode>, i: int, j: int)
-    requires wf_forest(ts), 0 <= i < ts.len(), 0 <= j < ts.len(), rep0(ts, i) != rep0(ts, j),
+/// the class sizes of two different roots fit into a usize together (they are bounded by the number
+/// of nodes, which is the length of a Vec)
+proof fn lemma_sizes_fit(ts: Seq<TypeNode>, i: int, j: int)
+    requires wf_forest(ts), sizes_inv(ts), ts.len() <= usize::MAX, 0 <= i < ts.len(), 0 <= j < ts.len(), rep0(ts, i) != rep0(ts, j),
     ensures ts[rep0(ts, i)].size + ts[rep0(ts, j)].size <= usize::MAX
-{}
+{
+    lemma_rep0_props(ts, i); lemma_rep0_props(ts, j);
+    lemma_two_roots_le_sum(ts, ts.len() as int, rep0(ts, i), rep0(ts, j));
+}
+/// the roots of two graphs with the same partition are the same nodes
+proof fn lemma_same_roots(a: Seq<TypeNode>, b: Seq<TypeNode>)
+    requires wf_forest(a), wf_forest(b), same_graph(a, b),
+    ensures forall|i: int| 0 <= i < a.len() ==> ((#[trigger] b[i]).parent is None) == (a[i].parent is None),
+        sizes_inv(a) ==> sizes_inv(b),
+{
+    assert forall|i: int| 0 <= i < a.len() implies ((#[trigger] b[i]).parent is None) == (a[i].parent is None) by {
+        lemma_rep0_props(a, i); lemma_rep0_props(b, i);
+        assert(rep0(b, i) == rep0(a, i));
+    }
+    lemma_sum_same(a, b, a.len() as int);
+}
 
 // std function without a vstd specification: Option::or returns the first Some (assumed specification)
 pub assume_specification<T> [ Option::<T>::or ] (a: Option<T>, b: Option<T>) -> (r: Option<T>) ensures r == (if a is Some { a } else { b });
@@ -782,7 +847,7 @@ impl TypeCtx {
 impl TypeChecker {
     /// representation invariant of the type graph
     spec fn inv(&self) -> bool {
-        wf_forest(self.types@) && ids_closed(self.types@)
+        wf_forest(self.types@) && ids_closed(self.types@) && sizes_inv(self.types@)
     }
     spec fn valid(&self, a: TyID) -> bool { (a.0 as int) < self.types@.len() }
     /// every variable's type id is a node of the graph
@@ -1664,6 +1729,7 @@ impl TypeChecker {
                 && final(self).types@[i].constraints == old(self).types@[i].constraints, //# C02 find_node_mut.other_nodes_untouched
             final(r).parent is None ==> wf_forest(final(self).types@)
                 && forall|i: int| 0 <= i < old(self).types@.len() ==> #[trigger] rep0(final(self).types@, i) == rep0(old(self).types@, i), //# C02 find_node_mut.partition_unchanged_if_parent_untouched
+            final(r).parent is None && final(r).size == r.size && sizes_inv(old(self).types@) ==> sizes_inv(final(self).types@), //# C02 find_node_mut.sizes_kept_if_size_untouched
             final(self).variables == old(self).variables,
 //@   endspec
 //@   ghost entry
@@ -1676,10 +1742,13 @@ impl TypeChecker {
             let mid = self.types@;
             assert(same_graph(ts0, mid));
             lemma_rep0_props(mid, ta as int);
+            lemma_same_roots(ts0, mid);
             assert forall|n: TypeNode| n.parent is None implies wf_forest(#[trigger] mid.update(ta as int, n))
-                && forall|i: int| 0 <= i < ts0.len() ==> #[trigger] rep0(mid.update(ta as int, n), i) == rep0(ts0, i) by {
+                && (forall|i: int| 0 <= i < ts0.len() ==> #[trigger] rep0(mid.update(ta as int, n), i) == rep0(ts0, i))
+                && (n.size == mid[ta as int].size && sizes_inv(ts0) ==> sizes_inv(mid.update(ta as int, n))) by {
                 let upd = mid.update(ta as int, n);
                 lemma_parents_same(mid, upd);
+                if n.size == mid[ta as int].size && sizes_inv(ts0) { lemma_sum_same(mid, upd, mid.len() as int); }
                 assert forall|i: int| 0 <= i < ts0.len() implies #[trigger] rep0(upd, i) == rep0(ts0, i) by {
                     assert(rep0(upd, i) == rep0(mid, i));
                     assert(rep0(mid, i) == rep0(ts0, i));
@@ -1782,7 +1851,7 @@ impl TypeChecker {
 //@   endloop
 //@   ghost before
 //@| self.union(a, b);
-        proof { if rep0(self.types@, a.0 as int) != rep0(self.types@, b.0 as int) { axiom_sizes_fit(self.types@, a.0 as int, b.0 as int); } }
+        proof { assert(self.types@.len() == self.types.len()); if rep0(self.types@, a.0 as int) != rep0(self.types@, b.0 as int) { lemma_sizes_fit(self.types@, a.0 as int, b.0 as int); } }
 //@   endghost
 //@ end
 
@@ -1980,12 +2049,13 @@ proof fn lemma_union_noop(ts0: Seq<TypeNode>, ts2: Seq<TypeNode>, a0: int, b0: i
         wf_forest(ts0), ids_closed(ts0), wf_forest(ts2), same_graph(ts0, ts2), 0 <= a0 < ts0.len(), 0 <= b0 < ts0.len(),
         rep0(ts0, a0) == rep0(ts0, b0),
     ensures
-        ids_closed(ts2),
+        ids_closed(ts2), sizes_inv(ts0) ==> sizes_inv(ts2),
         merged_into(ts0, ts2, rep0(ts0, a0), rep0(ts0, b0), rep0(ts0, a0)),
         forall|i: int| 0 <= i < ts0.len() ==> #[trigger] cons_of(ts2, i) == cons_of(ts0, i),
         forall|i: int| 0 <= i < ts0.len() ==> (#[trigger] ts2[i]).ty == ts0[i].ty,
 {
     lemma_same_graph(ts0, ts2);
+    lemma_same_roots(ts0, ts2);
     assert forall|i: int| 0 <= i < ts0.len() implies #[trigger] cons_of(ts2, i) == cons_of(ts0, i) by {
         lemma_rep0_props(ts0, i);
         assert(rep0(ts2, i) == rep0(ts0, i));
@@ -2027,6 +2097,9 @@ proof fn lemma_union_final(ts0: Seq<TypeNode>, ts2: Seq<TypeNode>, ts3: Seq<Type
         ts3.len() == ts2.len(), ts3[l as int].parent == Some(TyID(w)),
         forall|j: int| 0 <= j < ts2.len() && j != l as int ==> (#[trigger] ts3[j]).parent == ts2[j].parent,
         forall|j: int| 0 <= j < ts2.len() ==> (#[trigger] ts3[j]).ty == ts2[j].ty && ts3[j].constraints == ts2[j].constraints,
+        sizes_inv(ts0), ts3[w as int].size == ts2[w as int].size + ts2[l as int].size,
+        forall|j: int| 0 <= j < ts2.len() && j != w as int ==> (#[trigger] ts3[j]).size == ts2[j].size,
+        forall|i: int| 0 <= i < ts3.len() ==> (#[trigger] ts4[i]).size == ts3[i].size,
         // step 2 (ts3 -> ts4): constraints of the loser copied into the winner
         ts4.len() == ts3.len(),
         forall|i: int| 0 <= i < ts3.len() ==> (#[trigger] ts4[i]).parent == ts3[i].parent && ts4[i].ty == ts3[i].ty,
@@ -2034,7 +2107,7 @@ proof fn lemma_union_final(ts0: Seq<TypeNode>, ts2: Seq<TypeNode>, ts3: Seq<Type
         forall|c: Constraint| #[trigger] ts4[w as int].constraints@.dom().contains(c) <==>
             ts3[w as int].constraints@.dom().contains(c) || ts3[l as int].constraints@.dom().contains(c),
     ensures
-        wf_forest(ts4), ids_closed(ts4),
+        wf_forest(ts4), ids_closed(ts4), sizes_inv(ts4),
         forall|i: int| 0 <= i < ts0.len() ==> (#[trigger] ts4[i]).ty == ts0[i].ty,
         merged_into(ts0, ts4, rep0(ts0, a0), rep0(ts0, b0), w as int),
         forall|c: Constraint| #[trigger] cons_of(ts4, a0).contains(c) <==> cons_of(ts0, a0).contains(c) || cons_of(ts0, b0).contains(c),
@@ -2044,6 +2117,10 @@ proof fn lemma_union_final(ts0: Seq<TypeNode>, ts2: Seq<TypeNode>, ts3: Seq<Type
     lemma_rep0_props(ts0, a0); lemma_rep0_props(ts0, b0);
     lemma_union_link(ts2, ts3, w, l);
     lemma_parents_same(ts3, ts4);
+    // sizes: ts0 -> ts2 same roots and sizes; ts2 -> ts3 the link; ts3 -> ts4 nothing relevant changes
+    lemma_same_roots(ts0, ts2);
+    lemma_sum_link(ts2, ts3, ts2.len() as int, w as int, l as int);
+    lemma_sum_same(ts3, ts4, ts3.len() as int);
     assert forall|i: int| 0 <= i < ts0.len() implies (#[trigger] ts4[i]).ty == ts0[i].ty by {
         assert(ts3[i].ty == ts2[i].ty);
     }
@@ -2082,7 +2159,11 @@ proof fn lemma_push(ts: Seq<TypeNode>, ts2: Seq<TypeNode>)
         wf_forest(ts2),
         forall|i: int| 0 <= i < ts.len() ==> rep0(ts2, i) == rep0(ts, i),
         rep0(ts2, ts.len() as int) == ts.len(),
+        sizes_inv(ts) && ts2[ts.len() as int].size == 1 ==> sizes_inv(ts2),
 {
+    if sizes_inv(ts) && ts2[ts.len() as int].size == 1 {
+        lemma_sum_prefix(ts, ts2, ts.len() as int);
+    }
     let h = the_h(ts);
     let h2 = h.push(0nat);
     assert(hok(ts2, h2)) by {
@@ -2098,6 +2179,14 @@ proof fn lemma_push(ts: Seq<TypeNode>, ts2: Seq<TypeNode>)
         lemma_push_rep(ts, ts2, h, h2, i);
     }
     lemma_rep_props(ts2, the_h(ts2), ts.len() as int);
+}
+/// the sum over a common prefix of two sequences is the same
+proof fn lemma_sum_prefix(a: Seq<TypeNode>, b: Seq<TypeNode>, n: int)
+    requires 0 <= n <= a.len(), n <= b.len(), forall|i: int| 0 <= i < n ==> b[i] == a[i],
+    ensures root_size_sum(b, n) == root_size_sum(a, n),
+    decreases n
+{
+    if n > 0 { lemma_sum_prefix(a, b, n - 1); }
 }
 proof fn lemma_push_rep(ts: Seq<TypeNode>, ts2: Seq<TypeNode>, h: Seq<nat>, h2: Seq<nat>, i: int)
     requires
